@@ -294,6 +294,11 @@ FREE_STRS = (['drifts\nafter 20 min', 'line1\nline2\nline3', '\ntop', 'end\n', '
               '\n', 'caf\u00e9', '\u03bcV', '\u4e2d\u6587 #2', 'ok \U0001f600', 'a\xa0b', '\ufeffbom', 'a\u200bb']
              + ['a%sb' % ch for ch in LINE_BOUNDS[1:]] + ['%sz' % ch for ch in LINE_BOUNDS[1:]]
              + ['z%s' % ch for ch in LINE_BOUNDS[1:]] + ['x\x01y', 'esc\x1b[0m', 'del\x7f', 'sub\x1az', 'u\x1fs'])
+# A carriage return inside a cell (a label pasted from a Windows / old Mac text) is read back as a line feed by
+# /repo main before the repair `fix: read_tsv / _read_tsv_simple open the file with newline=''` (branch fix-c18-r5):
+# CR cells are drawn only when that commit is in the tree under test.  Set CR_CELLS = True after the cherry-pick.
+CR_CELLS = os.environ.get('VT_C18_CR', '0') == '1'
+CR_STRS = ['a\rb', 'a\r\nb', '\rz', 'z\r', 'x\r\n', 'l1\r\nl2\rl3\nl4', 'q\r,"\r\n"']
 _NUM_ALPHA_CH = set('0123456789+-_.einfatyEINFATY')
 
 
@@ -301,7 +306,7 @@ def _cell_str_ok(s):
     """A string cell of the reading that the byte model decides like CPython: not empty, no NUL / CR, no lone
     surrogate, rejected by int() and float(), and either plain ASCII without FS GS RS US (which CPython strips as
     white space) or holding a printable ASCII character outside the alphabet of numeric literals."""
-    if not s or '\x00' in s or '\r' in s or _numeric(s):
+    if not s or '\x00' in s or ('\r' in s and not CR_CELLS) or _numeric(s):
         return False
     try:
         s.encode('utf-8')
@@ -344,10 +349,10 @@ def _rand_cell(rng, simple=False):
     if q_ < 0.55:
         return ['str', rng.choice(CELL_STRS)]
     if q_ < 0.7:
-        return ['str', rng.choice(FREE_STRS)]
+        return ['str', rng.choice(FREE_STRS + CR_STRS if CR_CELLS else FREE_STRS)]
     odd = rng.random() < 0.4
     for _ in range(20):
-        s = ''.join(rng.choice(ODD_CHARS) if odd and rng.random() < 0.3 else rng.choice('abgxyz 019_-+.,"\'\teEnN')
+        s = ''.join(rng.choice(ODD_CHARS + ['\r', '\r\n'] if CR_CELLS else ODD_CHARS) if odd and rng.random() < 0.3 else rng.choice('abgxyz 019_-+.,"\'\teEnN')
                     for _ in range(rng.randint(1, 7)))
         if _cell_str_ok(s):
             return ['str', s]
@@ -442,6 +447,13 @@ def generate(tier, rng):
             'rows': [[['cluster_id', ['int', 3]], ['group', ['str', 'line1\nline2\nline3']], ['amp', ['float', ftok(1.5)]]],
                      [['cluster_id', ['int', 4]], ['group', ['str', 'x\n,y']], ['KSLabel', ['str', 'end\n']]],
                      [['cluster_id', ['int', 5]], ['group', ['str', 'a\u2028b']], ['KSLabel', ['str', 'a\x0cb\x1dc\x85']]]]}})
+    if CR_CELLS:
+        for delim in ('tab', 'comma'):
+            cases.append({'kind': 'simple', 'inp': {'delim': delim, 'field': 'group', 'nptypes': False, 'data': [
+                [j, ['str', t]] for j, t in enumerate(CR_STRS)]}})
+            cases.append({'kind': 'tsv', 'inp': {
+                'delim': delim, 'first': None, 'excl': [], 'n': 4, 'default_n': True, 'nptypes': False,
+                'rows': [[['cluster_id', ['int', j]], ['group', ['str', t]]] for j, t in enumerate(CR_STRS)]}})
     cases.append({'kind': 'python', 'inp': {'items': [['a', ['str', 'he said "hi"']]]}})   # fixed: quoting
     cases.append({'kind': 'python', 'inp': {'items': [['a', ['str', 'back\\slash']]]}})
     cases.append({'kind': 'python', 'inp': {'items': [['a', ['str', 'new\nline']]]}})
